@@ -1404,7 +1404,9 @@ class PythonGenericType(DataType):
         from pandera.backends.pandas import error_formatters
 
         orig_isna = data_container.isna()
-        coerced_data = data_container.map(self._coerce_element)  # type: ignore[operator]
+        # map the elements as they are stored: mapping a categorical only maps
+        # its categories and leaves the missing values as nan
+        coerced_data = data_container.astype(object).map(self._coerce_element)  # type: ignore[operator]
         failed_selector = coerced_data.isna() & ~orig_isna
 
         if failed_selector.any(axis=None):
